@@ -255,6 +255,12 @@ def run(ctx, report: Report) -> None:
                      'get_classes does not split a string-valued class attribute with the CSS-whitespace regex (str.split() '
                      'also splits on NBSP, U+2003, VT ...): ".a" and [class~=a] disagree')
 
+    # ---- R9 (the whole pipeline by interpretation, bounded) --------------------------------------------------------------
+    r9 = report.rule('C01-R9', 'selectors of a pool designate what the Selectors specification says, on a reference tree (whole pipeline; bounded)', floor=10)
+    from .e2ematch import core_semantics_table
+    core_semantics_table(ctx, r9)
+
+
 
 def comma_reset_rule(ctx, r7):
     """On every path taken for a comma the per-alternative parser state is reset (shared with C05)."""
